@@ -7,7 +7,7 @@ from .. import cli, clicases as cc
 
 N_QUICK = 60
 N_THOROUGH = 1500
-RULE = ("generated games x the option space: -m full x -d {5 presets} x -t {1,2,7,30,100, 0 with -r>0} x -r x -p {0,1,2,5} x "
+RULE = ("each of -d, -t, -r, -c (and -p in the thread comparison) is left off the command line in a fifth of the runs and must then mean the documented default; generated games x the option space: -m full x -d {5 presets} x -t {1,2,7,30,100, 0 with -r>0} x -r x -p {0,1,2,5} x "
         "-c {0,1e-3,0.05,0.3,0.6,1.5} x --input-format {auto,json,gambit} x file/stdin x stdout/-o x extensions "
         "{.json,.efg,.txt,none}.  Per game: (a) the printed object equals the library's result for the mapped parameters "
         "(harness: solve/truncate/get_info/as_named with the same method, preset, budget, threshold) and the Coq model's; (b) the "
@@ -85,6 +85,9 @@ def run(out, rng, tier, args):
         o["par"] = 1
         if rng.random() < 0.2:
             o["T"], o["r"] = 0, rng.choice([0.5, 2.0, 5.0])     # -t 0 means "no limit": needs a positive threshold
+            cc.omit_some(rng, o, flags=("-d", "-c"))
+        else:
+            cc.omit_some(rng, o)
         fc.opts = o
         games.append(fc)
     lib_cases = [(fc, fc.opts, (2 ** 64 - 1) if fc.opts["T"] == 0 else None) for fc in games]
@@ -101,6 +104,8 @@ def run(out, rng, tier, args):
         if getattr(fc, "tie", False):
             out.count("exact_tie_family")
         out.count("preset_" + o["preset"])
+        for fl in sorted(o.get("omit", ())):
+            out.count("option_omitted_" + fl)
         out.count("clip_%g" % o["clip"])
         if base["exit"] != 0:
             out.monitor_hits.append((fc.cid, "exit %r on a valid file: %s" % (base["exit"], base["stderr"][-300:]), replay, "exit"))
@@ -111,6 +116,11 @@ def run(out, rng, tier, args):
             continue
         # (a) library and model, (e) clip choice
         for side, views in (("library", iv), ("model", mv)):
+            if side == "model" and o["T"] >= 1000:
+                # the default budget (option omitted): rounding is amplified over 1000 iterations; the binary is compared
+                # with the library (same code, exact) only
+                out.count("default_budget_runs_compared_with_the_library_only")
+                continue
             v = views.get(fc.cid)
             wants = (cc.expected_candidates(v, fc, exact=(o["par"] == 1)) if side == "library" else cc.model_candidates(v, fc)) if v else None
             if wants is None:
@@ -154,20 +164,29 @@ def run(out, rng, tier, args):
                 out.monitor_hits.append((fc.cid, "route %s (%s) gives exit %r and a different output than reading the file by extension"
                                          % (nm, r["cmd"], r["exit"]), dict(replay, other=r), "route"))
         # (c) thread count
-        k = rng.choice([0, 2, 5])
-        a2 = list(a)
-        a2[a2.index("-p") + 1] = str(k)
-        r = cli.run_cli(a2, path_text=fc.text, ext=ext, name="c16_%d" % fc.cid)
-        p2, _ = cli.parse_output(r["stdout"]) if r["exit"] == 0 else (None, None)
-        out.count("threads_%d" % k)
-        if p2 is None:
-            out.monitor_hits.append((fc.cid, "-p %d: exit %r" % (k, r["exit"]), dict(replay, other=r), "threads"))
-        else:
-            v = iv.get(fc.cid)
-            wants = cc.expected_candidates(v, fc) if v else None
-            if wants and all(cc.compare_output(p2, w, 1e-7) is not None for w in wants):
-                out.monitor_hits.append((fc.cid, "-m full -p %d prints a different solution than the library with one thread: %s"
-                                         % (k, cc.compare_output(p2, wants[0], 1e-7)), dict(replay, other=r), "threads"))
+        # (over the default budget of 1000 iterations the summation order of the workers is amplified: not compared)
+        if o["T"] < 1000:
+            k = rng.choice([0, 2, 5, None])
+            a2 = list(a)
+            if k is None:
+                # -p left off: the default (0 = available parallelism)
+                i_ = a2.index("-p")
+                del a2[i_:i_ + 2]
+                k = 0
+                out.count("parallel_option_omitted")
+            else:
+                a2[a2.index("-p") + 1] = str(k)
+            r = cli.run_cli(a2, path_text=fc.text, ext=ext, name="c16_%d" % fc.cid)
+            p2, _ = cli.parse_output(r["stdout"]) if r["exit"] == 0 else (None, None)
+            out.count("threads_%d" % k)
+            if p2 is None:
+                out.monitor_hits.append((fc.cid, "-p %d: exit %r" % (k, r["exit"]), dict(replay, other=r), "threads"))
+            else:
+                v = iv.get(fc.cid)
+                wants = cc.expected_candidates(v, fc) if v else None
+                if wants and all(cc.compare_output(p2, w, 1e-7) is not None for w in wants):
+                    out.monitor_hits.append((fc.cid, "-m full -p %d prints a different solution than the library with one thread: %s"
+                                             % (k, cc.compare_output(p2, wants[0], 1e-7)), dict(replay, other=r), "threads"))
         # (d) the other encoding of the same game
         if fc.twin is not None:
             tw = fc.twin
